@@ -6,9 +6,11 @@ import (
 	"go/constant"
 	"go/token"
 	"go/types"
+	"os"
 	"sort"
 	"strconv"
 	"strings"
+	"time"
 
 	"golang.org/x/tools/go/cfg"
 )
@@ -133,6 +135,7 @@ type Explorer struct {
 type atomMeta struct {
 	mentions map[string]bool
 	stable   bool
+	scopes   [][2]token.Pos // lexical scopes of the locals mentioned: the fact is dead outside any of them
 }
 
 type xnode struct {
@@ -197,6 +200,12 @@ func (x *Explorer) Run(init *State) {
 	if len(x.G.Blocks) == 0 {
 		return
 	}
+	if os.Getenv("JETVERIF_DEBUG") != "" {
+		t0 := time.Now()
+		defer func() {
+			fmt.Fprintf(os.Stderr, "explore %-50s %7d states %4d exits %v %s\n", x.Fn.Name, x.Visited, len(x.Exits), time.Since(t0).Round(time.Millisecond), x.Undecided)
+		}()
+	}
 	x.runFrom(x.G.Blocks[0], 0, init)
 }
 
@@ -215,9 +224,21 @@ func (x *Explorer) runFrom(b0 *cfg.Block, firstNode int, init *State) {
 		x.Visited++
 		if x.Visited > x.MaxStates {
 			x.Undecided = fmt.Sprintf("state space exceeded %d (block,state) pairs", x.MaxStates)
+			if os.Getenv("JETVERIF_DEBUG") != "" {
+				i := 0
+				for k := range visited {
+					if i++; i > 8 {
+						break
+					}
+					fmt.Fprintf(os.Stderr, "   sample state: %s\n", PlainKey(k))
+				}
+			}
 			return
 		}
 		states := []*State{n.st.Clone()}
+		if len(n.b.Nodes) > 0 {
+			x.prune(states[0], n.b.Nodes[0].Pos())
+		}
 		start := 0
 		if first {
 			start = firstNode
@@ -574,6 +595,36 @@ func (x *Explorer) kill(lhs ast.Expr, st *State) {
 	}
 }
 
+// prune drops the facts about variables whose lexical scope does not contain pos (they can never
+// be consulted again before being re-established); this keeps loops over big switches finite and small.
+func (x *Explorer) prune(st *State, pos token.Pos) {
+	if !pos.IsValid() {
+		return
+	}
+	dead := func(k string) bool {
+		m := x.atoms[k]
+		if m == nil {
+			return false
+		}
+		for _, sc := range m.scopes {
+			if pos < sc[0] || pos >= sc[1] {
+				return true
+			}
+		}
+		return false
+	}
+	for f := range st.Facts {
+		if dead(f) {
+			delete(st.Facts, f)
+		}
+	}
+	for r := range st.Regs {
+		if strings.HasPrefix(r, "eq:") && dead(r) {
+			delete(st.Regs, r)
+		}
+	}
+}
+
 func (x *Explorer) killUnstable(st *State) {
 	for f := range st.Facts {
 		if m := x.atoms[f]; m == nil || !m.stable {
@@ -831,6 +882,9 @@ func (x *Explorer) meta(k string, e ast.Expr) {
 				if x.unstable[o] {
 					m.stable = false
 				}
+				if sc := o.Parent(); sc != nil && o.Pkg() != nil && sc != o.Pkg().Scope() && sc.Pos().IsValid() {
+					m.scopes = append(m.scopes, [2]token.Pos{sc.Pos(), sc.End()})
+				}
 			}
 		case *ast.SelectorExpr:
 			if kk, ok := x.key(e); ok {
@@ -1004,7 +1058,7 @@ func (x *Explorer) PureCall(c *ast.CallExpr) bool { return x.P.PureCall(x.Fn.Inf
 
 var purePrefixes = []string{"strings.", "path.", "filepath.", "utf8.", "unicode.", "strconv.Quote", "builtin.len", "builtin.cap", "conv:",
 	"(reflect.Value).Is", "(reflect.Value).Kind", "(reflect.Value).Type", "(reflect.Value).Len", "(reflect.Value).Can", "(reflect.Value).NumField",
-	"(reflect.Type).", "(*reflect.rtype).", "reflect.TypeOf", "reflect.ValueOf", "errors.New", "fmt.Sprintf", "fmt.Errorf", "fmt.Sprint",
+	"(reflect.Type).", "(*reflect.rtype).", "(fs.FileInfo).", "(os.FileInfo).", "reflect.TypeOf", "reflect.ValueOf", "errors.New", "fmt.Sprintf", "fmt.Errorf", "fmt.Sprint",
 	"builtin.min", "builtin.max", "builtin.real", "builtin.imag", "builtin.complex"}
 
 func (p *Prog) PureCall(info *types.Info, c *ast.CallExpr) bool {
